@@ -271,6 +271,8 @@ def check_record(plies, sp, pgn_hex):
 
 def position_check(chk, rules, nontrivial_rule):
     status, broken = front(chk)
+    for b in getattr(chk, "spec_bad", []):
+        broken.append("the rules specification no longer reproduces a published perft count: " + b)
     if not status.get("harness_release"):
         return finish_with_tie(chk, broken)
     run = PlayoutRun(chk.tier, chk.seed)
@@ -307,7 +309,40 @@ RULE_PLAYOUT = ("random legal playouts (all choices from one xorshift state seed
                 "implementation's observables are compared with the extracted model line by line and with the extracted specification." % len(positions.ROOTS))
 
 
+PUBLISHED_PERFT = [   # chessprogramming.org "Perft Results": numbers that do not come from this engine
+    ("rnbqkbnr/pppppppp/8/8/8/8/PPPPPPPP/RNBQKBNR w KQkq - 0 1", [20, 400, 8902, 197281]),
+    ("r3k2r/p1ppqpb1/bn2pnp1/3PN3/1p2P3/2N2Q1p/PPPBBPPP/R3K2R w KQkq - 0 1", [48, 2039, 97862, 4085603]),
+    ("8/2p5/3p4/KP5r/1R3p1k/8/4P1P1/8 w - - 0 1", [14, 191, 2812, 43238]),
+    ("r3k2r/Pppp1ppp/1b3nbN/nP6/BBP1P3/q4N2/Pp1P2PP/R2Q1RK1 w kq - 0 1", [6, 264, 9467, 422333]),
+    ("rnbq1k1r/pp1Pbppp/2p5/8/2B5/8/PPP1NnPP/RNBQK2R w KQ - 1 8", [44, 1486, 62379, 2103487]),
+    ("r4rk1/1pp1qppp/p1np1n2/2b1p1B1/2B1P1b1/P1NP1N2/1PP1QPPP/R4RK1 w - - 0 10", [46, 2079, 89890, 3894594]),
+]
+
+
+def spec_perft_validation(chk):
+    """the executable rules specification is validated against published perft counts (guards against a tidy
+    specification of what the engine does instead of what the laws say)"""
+    maxd = 3 if chk.tier == "quick" else 4
+    blocks = []
+    for i, (f, counts) in enumerate(PUBLISHED_PERFT):
+        for d in range(1, maxd + 1):
+            blocks.append(["# v%d_%d" % (i, d), "specperft %d | %s" % (d, f)])
+    res = run_blocks(SPECDRIVER, blocks, timeout=2400)
+    bad = []
+    n = 0
+    for i, (f, counts) in enumerate(PUBLISHED_PERFT):
+        for d in range(1, maxd + 1):
+            ln = (res.get("v%d_%d" % (i, d), ["?"]) or ["?"])[0]
+            n += 1
+            if ln != "specperft %d %d" % (d, counts[d - 1]):
+                bad.append("Spec/Rules.v perft %d of %s gives '%s', published: %d" % (d, f, ln, counts[d - 1]))
+    chk.cov["spec_validated_against_published_perft"] = {"counts_checked": n, "max_depth": maxd, "mismatches": len(bad)}
+    return bad
+
+
 def check_C01(chk):
+    lib.CURRENT_TIER = chk.tier
+    chk.spec_bad = spec_perft_validation(chk)
     return position_check(chk, RULE_PLAYOUT + " Oracle: checked list (as UCI texts, sorted) = Rules.legal_moves; unchecked list = legal + pseudo-legal moves exposing the king.",
                           "distinct positions (FEN fields 1-4) with a check, a castling right, an en-passant file, a promotion available or a filtered move.")
 
